@@ -35,7 +35,9 @@ class BeginGroup(PintParsedStatement):
     """
 
     #: Regex to match the header parts of a definition.
-    _header_re = re.compile(r"@group\s+(?P<name>\w+)\s*(using\s(?P<used_groups>.*))*")
+    _header_re = re.compile(
+        r"@group\s+(?P<name>\w+)\s*(?:using\s(?P<used_groups>.*)|#.*)?$"
+    )
 
     name: str
     using_group_names: ty.Tuple[str, ...]
